@@ -511,7 +511,7 @@ register("C11", title="credentials", pkg=".",
          parts=[{"test": "^TestVerifC11$", "children": {"quick": 2, "thorough": 16}, "cases": {"quick": 1, "thorough": 6}},
                 {"cluster": True, "cluster_args": ["-auth"], "children": {"quick": 1, "thorough": 2}, "cases": {"quick": 1, "thorough": 1},
                  "race": {"quick": False, "thorough": False}, "timeout": {"quick": 600, "thorough": 900}}],
-         timeout={"quick": 400, "thorough": 2400}, level="exploration", env={"VERIF_REPO": "/repo"},
+         timeout={"quick": 400, "thorough": 2400}, level="exploration", env={"VERIF_REPO": os.environ.get("VERIF_REPO", "/repo")},
          rule="in-process node; every public session route x method x session state (fresh, logged in, other, deleted, never existed) x id spelling x credential "
               "variant (none, empty, wrong, prefix, extended, upper-case, own-after-delete, another live session's) must be refused without any change of state "
               "digest / log index / output position and without message data in the body; every private route harvested from the dispatcher source x {GET, POST} "
